@@ -34,6 +34,9 @@ pub struct Lock {
     /// message stage); 1: every symbol payload contains a byte outside the armoring alphabet
     /// (decoding fails while unarmoring); 2: alternating
     pub payload_style: u8,
+    /// re-draw the presentation of every header line (talker, VDM/VDO/other, delimiter, tag block,
+    /// channel, leading zeros, non-final fill count, checksum spelling, line ending)
+    pub dress: bool,
 }
 
 /// unique payload that cannot be unarmored: 'X' (88) is outside the alphabet
@@ -53,13 +56,20 @@ pub struct Step {
 
 impl Lock {
     pub fn new(pid: &'static str) -> Self {
-        Lock { p: Parser::new(), m: Reasm::new(), log: Vec::new(), ctr: 0, pid, decode_all: false, payload_style: 0 }
+        Lock { p: Parser::new(), m: Reasm::new(), log: Vec::new(), ctr: 0, pid, decode_all: false, payload_style: 0, dress: false }
     }
 
     /// Feed one well-formed line with a given payload; judge against the model.
     /// `decodable`: Some(true) when the caller knows the delivered payload decodes.
     pub fn feed_hdr(&mut self, rep: &mut Report, n: u8, k: u8, id: Option<u8>, payload: &[u8], fill: u8, decode: bool, decodable: Option<bool>, note: &str) -> Step {
-        let line = nmea_ref::mk(n, k, id, payload, fill);
+        let line = if self.dress {
+            let mut b = Build::simple(n, k, id, b"A", payload, fill);
+            let mut r = Rng::new(crate::rng::fnv(payload) ^ (self.log.len() as u64) << 20);
+            dress(&mut r, &mut b, k < n);
+            b.line()
+        } else {
+            nmea_ref::mk(n, k, id, payload, fill)
+        };
         let sc = reasm_ref::state_class(&self.m.st);
         let lc = reasm_ref::line_class(&self.m.st, n, k, id);
         let exp = self.m.expect(n, k, id, payload);
@@ -353,6 +363,7 @@ fn probe(rep: &mut Report, lk: &Lock) {
 fn random_histories(ctx: &Ctx, rep: &mut Report, r: &mut Rng) {
     for hi in 0..ctx.budget(4_000, 250_000) {
         let mut lk = Lock::new(PID);
+        lk.dress = hi % 3 == 1;
         let decode_mode = hi % 5 == 0;
         let len = r.usize(10, 200);
         // plan: sequence of (n,k,id,payload, fill, decodable)
